@@ -15,6 +15,7 @@ import (
 	"testing"
 	"time"
 
+	sgbucket "github.com/couchbase/sg-bucket"
 	"github.com/couchbase/sync_gateway/base"
 	"golang.org/x/crypto/bcrypt"
 	"verif/vlib"
@@ -48,6 +49,7 @@ type c12rOp struct {
 type c12rHist struct {
 	run   *vlib.Run
 	rt    *RestTester
+	vs    *vStore
 	idx   int
 	r     *vlib.Rand
 	names []string
@@ -397,6 +399,88 @@ func (h *c12rHist) cookieFrom(resp *TestResponse) string {
 	return ""
 }
 
+// oneTimeConsumeFails: a one-time session is issued and then presented as the session cookie while the storage Delete
+// that consumes it fails (a temporary storage error, or key-not-found as for the loser of two concurrent
+// presentations on Couchbase Server). deleteOneTimeSession documents this as "not allowing login": no route may treat
+// the request as that user, report the user, or mint a session from it — in particular not the public-privilege
+// routes GET/POST /db/_session, where the handler tolerates cookie errors to fall through to guest access.
+func (h *c12rHist) oneTimeConsumeFails(name string) {
+	u := h.users[name]
+	resp := h.rt.SendUserRequestWithHeaders("POST", "/db/_session?one_time=true", "{}", nil, name, u.pw)
+	o := h.rec(c12rOp{Req: "POST /db/_session?one_time=true", Auth: "basic " + name + ":" + c12rQ(u.pw), Body: "{}", Status: resp.Code})
+	var body struct {
+		ID string `json:"one_time_session_id"`
+	}
+	_ = json.Unmarshal(resp.Body.Bytes(), &body)
+	h.judgePassword(o, name, u.pw, "correct", "POST-_session-basic", resp.Code == 200)
+	if resp.Code != 200 || body.ID == "" {
+		return
+	}
+	s := h.addSession(body.ID, name, true, false)
+	o.Note = fmt.Sprintf("session s%d one_time=true", s.idx)
+	var ferr error = errInjected
+	fname := "injected temporary storage error"
+	if h.r.Bool() {
+		ferr, fname = sgbucket.MissingError{Key: body.ID}, "key-not-found"
+	}
+	h.vs.SetFault(func(op *base.VerifOp, _ string) base.VerifDecision {
+		if (op.Kind == "Delete" || op.Kind == "Remove") && strings.Contains(op.Key, body.ID) {
+			h.run.Count("session_deletes_failed_by_injection", 1)
+			return base.VerifDecision{Action: base.VerifFailBefore, Err: ferr}
+		}
+		return base.VerifDecision{}
+	})
+	label := fmt.Sprintf("cookie s%d(%s) one-time; Delete(session) fails: %s", s.idx, name, fname)
+	judge := func(o *c12rOp, accepted bool, what string) {
+		o.Expect = "reject:one-time-session-consuming-delete-failed"
+		h.run.Count("attempts_session", 1)
+		h.run.Count("must_reject_session", 1)
+		h.run.Count("one_time_presented_with_failing_delete", 1)
+		h.run.Distinct("reject_reasons", "session:one-time-session-consuming-delete-failed")
+		if accepted {
+			h.run.Count("accepted_session", 1)
+			h.violation("model", "C12|rest|cookie|one-time-session-consuming-delete-failed|"+what,
+				fmt.Sprintf("%s with %s: the one-time session could not be consumed, yet the request was treated as user %s (status %d)", o.Req, label, name, o.Status))
+		}
+	}
+	for _, k := range h.r.Perm(4)[:h.r.Range(2, 4)] {
+		switch k {
+		case 0:
+			resp := h.rt.SendRequestWithHeaders("GET", "/db/_session", "", h.cookieHeader(s.id))
+			var b struct {
+				UserCtx struct {
+					Name *string `json:"name"`
+				} `json:"userCtx"`
+			}
+			_ = json.Unmarshal(resp.Body.Bytes(), &b)
+			who := ""
+			if b.UserCtx.Name != nil {
+				who = *b.UserCtx.Name
+			}
+			o := h.rec(c12rOp{Req: "GET /db/_session", Auth: label, Status: resp.Code, Note: "userCtx.name=" + who})
+			judge(o, who != "", "user-reported")
+		case 1:
+			resp := h.rt.SendRequestWithHeaders("POST", "/db/_session", "{}", h.cookieHeader(s.id))
+			minted := h.cookieFrom(resp)
+			o := h.rec(c12rOp{Req: "POST /db/_session", Auth: label, Body: "{}", Status: resp.Code, Note: fmt.Sprintf("Set-Cookie session: %v", minted != "" && minted != s.id)})
+			judge(o, resp.Code == 200 || (minted != "" && minted != s.id), "session-minted")
+		case 2:
+			resp := h.rt.SendRequestWithHeaders("POST", "/db/_session?one_time=true", "{}", h.cookieHeader(s.id))
+			var b struct {
+				ID string `json:"one_time_session_id"`
+			}
+			_ = json.Unmarshal(resp.Body.Bytes(), &b)
+			o := h.rec(c12rOp{Req: "POST /db/_session?one_time=true", Auth: label, Body: "{}", Status: resp.Code})
+			judge(o, resp.Code == 200 || b.ID != "", "session-minted")
+		default:
+			resp := h.rt.SendRequestWithHeaders("GET", "/db/", "", h.cookieHeader(s.id))
+			o := h.rec(c12rOp{Req: "GET /db/", Auth: label, Status: resp.Code})
+			judge(o, resp.Code == 200, "authenticated")
+		}
+	}
+	h.vs.SetFault(nil)
+}
+
 func (h *c12rHist) pick(exists bool) (string, bool) {
 	var c []string
 	for _, n := range h.names {
@@ -522,6 +606,12 @@ func (h *c12rHist) step() {
 		resp := h.rt.SendUserRequestWithHeaders("GET", "/db/", "", nil, name, pw)
 		o := h.rec(c12rOp{Req: "GET /db/", Auth: "basic " + name + ":" + c12rQ(pw), Status: resp.Code})
 		h.judgePassword(o, name, pw, class, "GET-db-basic", resp.Code == 200)
+	case k < 81:
+		if u := h.users[existing]; u.disabled {
+			h.setDisabled(existing, false)
+		} else {
+			h.oneTimeConsumeFails(existing)
+		}
 	default:
 		if len(h.sess) == 0 || r.Chance(1, 12) {
 			h.presentSession(nil, fmt.Sprintf("bogus%x", r.Intn(1<<30)))
@@ -535,7 +625,9 @@ func (h *c12rHist) step() {
 func TestVerif_C12_Rest(t *testing.T) {
 	run := vlib.Start(t, "C12", "rest")
 	defer run.Finish()
-	rt := NewRestTester(t, &RestTesterConfig{
+	vs := newVStore(t)
+	vs.logOn.Store(false)
+	rt := vs.NewRestTester(t, &RestTesterConfig{
 		DatabaseConfig: &DatabaseConfig{DbConfig: DbConfig{AllowEmptyPassword: base.Ptr(true)}},
 		// RestTester lowers the bcrypt cost to MinCost; this part runs at the product default
 		MutateStartupConfig: func(sc *StartupConfig) { sc.Auth.BcryptCost = 0 },
@@ -610,7 +702,7 @@ func TestVerif_C12_Rest(t *testing.T) {
 		if onlyOK && only != i {
 			continue
 		}
-		h := &c12rHist{run: run, rt: rt, idx: i, r: run.CaseRand(i), users: map[string]*c12rUser{}}
+		h := &c12rHist{run: run, rt: rt, vs: vs, idx: i, r: run.CaseRand(i), users: map[string]*c12rUser{}}
 		for _, n := range []string{"alice", "bob", "carol"} {
 			name := fmt.Sprintf("s%dh%d_%s", run.Seed, i, n)
 			h.names = append(h.names, name)
